@@ -43,22 +43,8 @@ def _try(f):
         return ["EXC", type(e).__name__]
 
 
-_PANEL = None
-
-
 def _panel(L):
-    global _PANEL
-    if _PANEL is None:
-        T = L.queries.Table
-        _PANEL = [
-            ("Ta", T("a")), ("Ta_a1", T("a", alias="a1")), ("Tb", T("b")), ("Ts.a", T("a", schema="s")),
-            ("Qa", L.queries.Query.from_(T("a")).select("x")),
-            ("Qa_sq", L.queries.Query.from_(T("a")).select("x").as_("sq0")),
-            ("AQ", L.queries.AliasedQuery("cte1")),
-            ("S", L.queries.Schema("s")),
-            ("None", None),
-        ]
-    return _PANEL
+    return L.PANEL
 
 
 def kind_of(L, o) -> str:
